@@ -154,6 +154,15 @@ CHECKS = {
         note=TRUSTED + " Oscillating (conditionally divergent) exits are not judged; template central/cumulant goals only at order 2; <=300 running states.",
         design="DESIGN.md section 4 C09",
     ),
+    "C10": dict(
+        technique="property-based testing: generated parametric programs; exact derivative of the moment in the parameter by exact polynomial interpolation of reference-interpreter values",
+        text="Generated-input search over programs with a symbolic parameter in probabilities, coefficients, initial values and branches: E(M)(n) is evaluated exactly by the "
+             "reference interpreter at K rational parameter values, interpolated exactly (Newton form over Fractions, verified on 3 held-out values, K raised until it verifies) and "
+             "differentiated formally; the result is compared at 2 parameter values and n=0..4 with the solution of the sensitivity recurrences (DiffRecBuilder) and with the "
+             "differentiated closed form, which are thereby also compared with each other.",
+        note=TRUSTED + " Only programs in which the moment is polynomial in p up to degree 24 are judged (the generator produces such programs); other parameters fixed to rationals.",
+        design="DESIGN.md section 4 C10",
+    ),
 }
 
 PENDING = {}
